@@ -432,14 +432,9 @@ func checkReqCtor(c *Check, p *Program, f *ssa.Function) {
 }
 
 func checkUDPOrigin(c *Check, p *Program) {
-	var recv *ssa.Function
-	for _, fn := range p.FuncsIn("knx/knxnet") {
-		if fn.Parent() != nil || len(fn.Params) != 3 {
-			continue
-		}
-		if isPtrToNamed(fn.Params[0].Type(), "net", "UDPConn") && isPtrToNamed(fn.Params[1].Type(), "net", "UDPAddr") {
-			recv = fn
-		}
+	recv, _ := receivers(p)
+	if recv != nil && (len(recv.Params) < 3 || !isPtrToNamed(recv.Params[1].Type(), "net", "UDPAddr")) {
+		recv = nil
 	}
 	if recv == nil {
 		c.Fail("C20.D6", "UDP receiver", "", "no function (*net.UDPConn, *net.UDPAddr, chan<- Service) found")
